@@ -3,12 +3,19 @@ package main
 import (
 	"encoding/json"
 	"fmt"
+	"os"
 	"sort"
 	"strings"
 	"sync"
+	"sync/atomic"
 
 	"github.com/internetarchive/Zeno/verifsim/scen"
 )
+
+var planSeq atomic.Int64
+
+// uniqSub gives every profiling run its own scratch directory (plans can be computed concurrently, e.g. by the self-test).
+func uniqSub(prefix string) string { return fmt.Sprintf("%s%d", prefix, planSeq.Add(1)) }
 
 func pointCounts(res *childResult) map[string]int {
 	out := map[string]int{}
@@ -102,7 +109,12 @@ func planC03(p *propDef, tier string, seed uint64, n int) []*Case {
 		label := stopMatrix(sc, t, i)
 		sc.Sched.MaxSimSec = 6 * 3600
 		c := &Case{Idx: 900000 + i, Seed: s, Scenario: sc, Label: "profile"}
-		res, _ := runCase(c, false, nil, "p")
+		res, _ := runCase(c, false, nil, uniqSub("p"))
+		for try := 0; try < 3 && (res == nil || res.rec == nil); try++ {
+			// a profiling run lost on an overloaded machine would silently shrink the plan: repeat it
+			fmt.Fprintf(os.Stderr, "vcheck: profiling run %d left no record (exit %d), repeating\n", i, res.exit)
+			res, _ = runCase(c, false, nil, uniqSub("p"))
+		}
 		mu.Lock()
 		profs[i] = &prof{sc: sc, seed: s, label: label, pc: pointCounts(res)}
 		mu.Unlock()
@@ -262,7 +274,11 @@ func planC04(p *propDef, tier string, seed uint64, n int) []*Case {
 			sc.Cfg.MaxHops = 1
 		}
 		c := &Case{Idx: 910000 + i, Seed: s, Scenario: sc, Label: "profile"}
-		res, _ := runCase(c, false, nil, "p")
+		res, _ := runCase(c, false, nil, uniqSub("p"))
+		for try := 0; try < 3 && (res == nil || res.rec == nil); try++ {
+			fmt.Fprintf(os.Stderr, "vcheck: profiling run %d left no record (exit %d), repeating\n", i, res.exit)
+			res, _ = runCase(c, false, nil, uniqSub("p"))
+		}
 		pr := &prof{sc: sc, seed: s, pc: pointCounts(res)}
 		if res.rec != nil && res.rec.Summary != nil {
 			if f, ok := res.rec.Summary["warc_writes"].(float64); ok {
@@ -362,7 +378,7 @@ func planC16(p *propDef, tier string, seed uint64, n int) []*Case {
 		}
 		pr := &pair{a: mk(N), b: mk(4 * N), sa: s}
 		for try := 0; try < 3 && pr.fp == ""; try++ { // a run lost to the wall-clock watchdog on a loaded machine is repeated
-			res, _ := runCase(&Case{Idx: 920000 + i, Seed: s, Scenario: pr.a, Label: "N"}, false, nil, "a")
+			res, _ := runCase(&Case{Idx: 920000 + i, Seed: s, Scenario: pr.a, Label: "N"}, false, nil, uniqSub("a"))
 			if res.rec != nil && res.rec.Summary != nil {
 				if f, ok := res.rec.Summary["footprint"]; ok {
 					b, _ := json.Marshal(f)
